@@ -8,6 +8,7 @@ import E2P.Lemmas.LookupOrder
 import E2P.Lemmas.LookupScan
 import E2P.Lemmas.LookupIndex
 import E2P.Lemmas.LookupCols
+import E2P.Lemmas.LookupBin
 
 namespace E2P.C14
 open E2P
@@ -458,6 +459,110 @@ theorem address_spec (r : Int) (c : Nat) :
     addressFn r (c : Int) = .ok (.str (['$'] ++ colLetters c ++ ['$'] ++ (toString r).toList)) := by
   simp [addressFn]
 
+/-! ### XMATCH, binary search modes -/
+
+open E2P.LookupBin in
+/-- **XMATCH(v, keys, 0, 2)** on keys that ascend strictly and **XMATCH(v, keys, 0, -2)** on keys that descend strictly (numbers, or
+texts in code point order - `_binary_search` lower-cases nothing): the position of the row whose key equals the lookup value,
+else #N/A; no exception, whatever the length of the column -/
+theorem xmatch_binary_exact (lookup : Val) (rows keys : List Val) (kd : LKind) (sm : Int) (hsm : sm = 2 ∨ sm = -2)
+    (hk : keysOf rows = some keys) (hne : keys ≠ []) (hv : lkind lookup = some kd) (hkd : ∀ k ∈ keys, lkind k = some kd)
+    (hnb : ∀ k ∈ lookup :: keys, k ≠ .blank)
+    (hs : ∀ (i j : Nat) ki kj, i < j → keys[i]? = some ki → keys[j]? = some kj → Before (decide (sm = -2)) ki kj) :
+    ∃ r, xmatchFn lookup (.list rows) 0 sm = .ok r ∧
+      (∀ (i : Nat) k, keys[i]? = some k → BsEq k lookup → r = .int ((i : Int) + 1)) ∧
+      ((∀ k ∈ keys, ¬ BsEq k lookup) → r = errNA) := by
+  have hok := ok_of_sorted kd keys lookup (decide (sm = -2)) hv hkd hs
+  obtain ⟨e, ns, nl, hbs, hres⟩ := binarySearch_spec keys lookup (decide (sm = -2)) hok hne
+  have h1 : ¬ sm = 1 := by omega
+  have h2 : ¬ sm = -1 := by omega
+  have hall : (lookup :: keys).all bsKey = true := by
+    rw [List.all_eq_true]
+    intro k hkm
+    have hb := hnb k hkm
+    have hkk : lkind k = some kd := by
+      rcases List.mem_cons.mp hkm with rfl | hkm
+      · exact hv
+      · exact hkd k hkm
+    cases k <;> simp_all [bsKey]
+  have h01 : ¬ ((0 : Int) = -1) := by decide
+  have h02 : ¬ ((0 : Int) = 1) := by decide
+  refine ⟨if e = -1 then errNA else .int (e + 1), ?_, ?_, ?_⟩
+  · simp only [xmatchFn, h1, h2, if_false, hsm, if_true, hk, hall, Bool.not_true, Bool.false_eq_true, hbs, h01, h02]
+  · intro i k hi heq
+    rcases hres with ⟨_, hside⟩ | ⟨he0, ke, hke, hkeq⟩
+    · exfalso
+      rcases hside i k hi with hL | hR
+      · unfold Lside at hL
+        cases hd : decide (sm = -2) <;> rw [hd] at hL <;> simp only [Bool.false_eq_true, if_false, if_true] at hL
+        · rw [heq.1] at hL; cases hL
+        · rw [heq.2] at hL; cases hL
+      · unfold Rside at hR
+        cases hd : decide (sm = -2) <;> rw [hd] at hR <;> simp only [Bool.false_eq_true, if_false, if_true] at hR
+        · rw [heq.2] at hR; cases hR
+        · rw [heq.1] at hR; cases hR
+    · have hne1 : ¬ e = -1 := by omega
+      rw [if_neg hne1]
+      congr 1
+      by_cases hlt : i < e.toNat
+      · exfalso
+        have hb := hs i e.toNat k ke hlt hi hke
+        unfold Before at hb
+        cases hd : decide (sm = -2) <;> rw [hd] at hb <;> simp only [Bool.false_eq_true, if_false, if_true] at hb
+        · exact not_lt_of_eq k ke lookup heq hkeq hb
+        · exact not_lt_of_eq ke k lookup hkeq heq hb
+      · by_cases hgt : e.toNat < i
+        · exfalso
+          have hb := hs e.toNat i ke k hgt hke hi
+          unfold Before at hb
+          cases hd : decide (sm = -2) <;> rw [hd] at hb <;> simp only [Bool.false_eq_true, if_false, if_true] at hb
+          · exact not_lt_of_eq ke k lookup hkeq heq hb
+          · exact not_lt_of_eq k ke lookup heq hkeq hb
+        · omega
+  · intro hnone
+    rcases hres with ⟨he, _⟩ | ⟨_, ke, hke, hkeq⟩
+    · rw [if_pos he]
+    · exact absurd hkeq (hnone ke (List.mem_of_getElem? hke))
+
+open E2P.LookupBin in
+/-- the same with the hypotheses as the checks the driver evaluates, and the result as the specification `specBinExact` -/
+theorem xmatch_binary_spec (lookup : Val) (rows keys : List Val) (sm : Int) (hsm : sm = 2 ∨ sm = -2)
+    (hk : keysOf rows = some keys) (hne : keys.isEmpty = false) (hkind : sameKind lookup keys = true)
+    (hs : strictlyRuns (sm == -2) keys = true) :
+    xmatchFn lookup (.list rows) 0 sm = .ok (idxOrNA (specBinExact lookup keys)) := by
+  simp only [sameKind, Bool.and_eq_true, List.all_eq_true, beq_iff_eq] at hkind
+  have hkl : ∀ k, bsKey k = true → (lkind k).isSome = true ∧ k ≠ .blank := by
+    intro k hb; cases k <;> simp_all [bsKey]
+  obtain ⟨kd, hv⟩ := Option.isSome_iff_exists.mp (hkl lookup hkind.1).1
+  have hdec : (sm == -2) = decide (sm = -2) := rfl
+  rw [hdec] at hs
+  obtain ⟨r, hr, hpos, hna⟩ := xmatch_binary_exact lookup rows keys kd sm hsm hk (by cases keys <;> simp_all) hv
+    (fun k hkm => by rw [(hkind.2 k hkm).2, hv])
+    (fun k hkm => by
+      rcases List.mem_cons.mp hkm with rfl | hkm
+      · exact (hkl _ hkind.1).2
+      · exact (hkl k (hkind.2 k hkm).1).2)
+    (strictlyRuns_before _ keys hs)
+  rw [hr]
+  congr 1
+  unfold specBinExact
+  cases hf : keys.findIdx? (fun k => bsEqB k lookup) with
+  | none =>
+    rw [List.findIdx?_eq_none_iff] at hf
+    simp only [Option.map_none, idxOrNA]
+    apply hna
+    intro k hkm heq
+    have := hf k hkm
+    simp [bsEqB, heq.1, heq.2] at this
+  | some i =>
+    obtain ⟨hi, hp, _⟩ := List.findIdx?_eq_some_iff_getElem.mp hf
+    simp only [Option.map_some, idxOrNA]
+    have := hpos i keys[i] (List.getElem?_eq_getElem hi) (by
+      simp only [bsEqB, Bool.and_eq_true, beq_iff_eq] at hp
+      exact hp)
+    rw [this]
+    congr 1
+
 /-! ### non-vacuity -/
 example : matchFn (.int 5) (.list [.list [.int 1], .list [.flt 5], .list [.int 9]]) 0 = .ok (.int 2) := by rfl
 example : matchFn (.int 10) (.list [.list [.int 1], .list [.flt 5], .list [.int 9]]) 1 = .ok (.int 3) := by rfl
@@ -475,6 +580,22 @@ example : xmatchFn (.str ['b']) (.list [.list [.str ['B']], .list [.str ['a']], 
 example : ∃ v, indexFn (.list [.list [.int 7], .list [.int 8]]) (.int 2) .none = .ok v :=
   (index_match (.int 5) [.list [.int 4], .list [.int 5]] [.int 4, .int 5] [.int 7, .int 8] 2 rfl rfl rfl rfl
     (Or.inl (Nat.le_refl 2)) rfl).elim fun v h => ⟨v, h.2.2.1⟩
+open E2P.LookupBin in
+example : xmatchFn (.str ['f','i','g']) (.list [.list [.str ['p']], .list [.str ['f','i','g']], .list [.str ['a']]]) 0 (-2) = .ok (.int 2) := by
+  simp [xmatchFn, keysOf, rowKey, lkind, bsKey, binarySearch, bsLoop, bsLt, strLt]
+open E2P.LookupBin in
+-- the hypotheses of xmatch_binary_exact can be met: a descending text column
+example : ∃ r, xmatchFn (.str ['f']) (.list [.list [.str ['p']], .list [.str ['f']], .list [.str ['a']]]) 0 (-2) = .ok r ∧ r = .int 2 := by
+  obtain ⟨r, h1, h2, _⟩ := xmatch_binary_exact (.str ['f']) [.list [.str ['p']], .list [.str ['f']], .list [.str ['a']]]
+    [.str ['p'], .str ['f'], .str ['a']] .str (-2) (Or.inr rfl) rfl (by simp) rfl (by simp [lkind]) (by simp)
+    (by
+      intro i j ki kj hij hi hj
+      have hj3 : j < 3 := (List.getElem?_eq_some_iff.mp hj).1
+      have : (i = 0 ∧ j = 1) ∨ (i = 0 ∧ j = 2) ∨ (i = 1 ∧ j = 2) := by omega
+      rcases this with ⟨rfl, rfl⟩ | ⟨rfl, rfl⟩ | ⟨rfl, rfl⟩ <;> simp at hi hj <;> subst hi <;> subst hj <;> rfl)
+  exact ⟨r, h1, h2 1 (.str ['f']) rfl (by constructor <;> rfl)⟩
+example : xmatchFn (.int 9) (.list [.list [.int 1], .list [.flt 5], .list [.int 9]]) 0 2 = .ok (.int 3) :=
+  xmatch_binary_spec (.int 9) _ [.int 1, .flt 5, .int 9] 2 (Or.inl rfl) rfl rfl rfl (by decide +kernel)
 example : colLetters 26 = ['Z'] ∧ colLetters 27 = ['A', 'A'] ∧ colLetters 16384 = ['X', 'F', 'D'] := by decide +kernel
 
 end E2P.C14
